@@ -416,7 +416,14 @@ def run(F, R, tier):
         found = {}
         _walk(v, [], found, f, short)
         _REL = []
-        for key, (q, guard, qtxt, assumed_txt) in sorted(found.items()):
+        mults = {}
+        try:
+            for extra_, vv in _cases(v, [])[:64]:
+                for k_, n_ in spine_mult(vv).items():
+                    mults[k_] = max(mults.get(k_, 0), n_)
+        except RecursionError:
+            mults = {}
+        for key, (q, guard, qtxt, assumed_txt, shift_type) in sorted(found.items()):
             inst = "%s: 1/(%s)" % (short, qtxt[:70])
             names = atom_names(q)
             if names and all(SM_ONLY.match(n) for n in names):
@@ -442,7 +449,7 @@ def run(F, R, tier):
                     R.ok("R1", inst + " [pole absorbed: the result stays finite in IEEE arithmetic, see R4]", F.loc(f))
                     continue
             else:
-                guards_used.append((short, qtxt, guard, F.loc(f)))
+                guards_used.append((short, qtxt, guard, F.loc(f), mults.get(qtxt, 1) if shift_type else 1))
             R.check("R1", guard is not None, inst + (" guarded by %s" % show(guard)[:60] if guard is not None else ""), F.loc(f),
                     "denominator factor %s can vanish at a coincidence of its arguments and no guard on the path excludes it "
                     "(path: %s)" % (qtxt[:90], assumed_txt[:120] or "unconditional"),
@@ -463,9 +470,18 @@ def run(F, R, tier):
                  "by the pole, exceeds 1%%); every shift(v, limit, eps) moves by <= %.0e (the quantifier bounds the slope by "
                  "20%% per 2e-3, so a larger shift can leave the 1%% band)" % (float(lo), float(hi)), 30)
     seen_tol = set()
-    for short, qtxt, guard, loc in guards_used:
+    for short, qtxt, guard, loc, mult in guards_used:
         for g_ in _atomic_guards(guard):
             tol = _tolerance(g_)
+            if tol is not None and mult >= 2 and (short, qtxt, "m") not in seen_tol:
+                seen_tol.add((short, qtxt, "m"))
+                need = (2.0 ** -53 / 1e-2) ** (1.0 / mult)
+                R.check("R3", float(tol) >= need, "%s: factor %s enters with multiplicity %d, guard tolerance %.3g >= %.1e"
+                        % (short, qtxt[:40], mult, float(tol), need), loc,
+                        "%s divides by (%s)^%d; the guard %s keeps a distance of only %.3g: even a perfectly conditioned "
+                        "numerator (rounding error 2^-53) divided by %.3g^%d is off by more than 1%% (need >= %.1e)"
+                        % (short, qtxt[:60], mult, show(g_)[:60], float(tol), float(tol), mult, need),
+                        key="R3m|%s|%s" % (short, qtxt[:60]))
             key = (short, show(g_))
             if tol is None or key in seen_tol:
                 continue
@@ -772,6 +788,49 @@ def _contract_phi_pos(F):
 CONTRACTS = {"Ixy_sorted": _contract_ixy_sorted, "phi_pos_lambda_positive": _contract_phi_pos}
 
 
+def spine_mult(t, out=None, depth=0):
+    """multiplicity with which each mixed-sign denominator factor enters a product chain:
+    {normal form of factor: max count over all product chains of the term}"""
+    out = {} if out is None else out
+
+    def chain(u, d=0):
+        """Counter of denominator factors of the product chain rooted at u"""
+        c = {}
+        if not isinstance(u, tuple) or not u or d > 200:
+            return c
+        h = u[0]
+        if h == "neg":
+            return chain(u[1], d + 1)
+        if h == "*":
+            for x in (u[1], u[2]):
+                for k_, v_ in chain(x, d + 1).items():
+                    c[k_] = c.get(k_, 0) + v_
+            return c
+        if h == "/":
+            for k_, v_ in chain(u[1], d + 1).items():
+                c[k_] = c.get(k_, 0) + v_
+            for fac in factors(u[2]):
+                if fac[0] == "/":
+                    continue
+                try:
+                    q = to_rat(fac).n
+                except NotPolynomial:
+                    continue
+                if mixed_sign(q):
+                    c[repr(q)] = c.get(repr(q), 0) + 1
+                # a denominator that is itself a product chain with divisions inside
+            return c
+        # a sum, call or ite ends the chain: its sub-terms start their own chains
+        for x in (u[1:] if isinstance(h, str) else u):
+            if isinstance(x, tuple):
+                for k_, v_ in chain(x, d + 1).items():
+                    out[k_] = max(out.get(k_, 0), v_)
+        return c
+    for k_, v_ in chain(t).items():
+        out[k_] = max(out.get(k_, 0), v_)
+    return out
+
+
 def _walk(t, assumed, found, f, short, depth=0):
     if not isinstance(t, tuple) or not t or depth > 400:
         return
@@ -847,11 +906,17 @@ def _denominator(d, assumed, found, f, short):
             for c, tr in extra:
                 allassumed.append((c, tr))
             guard = excluded_by(q, allassumed)
+            # shift-type guard: the excluding condition is an ite inside the value itself (the variable was moved away
+            # and the same formula is evaluated at the guard distance), not a branch to an alternative formula
+            shift_type = guard is not None and excluded_by(q, list(extra)) is not None
             key = (qtxt,)
             prev = found.get(key)
             # a factor is fine only if it is guarded on every path it occurs on
             if prev is None or (prev[1] is not None and guard is None):
-                found[key] = (q, guard, qtxt, " && ".join(("" if tr else "!") + show(c)[:40] for c, tr in allassumed))
+                found[key] = (q, guard, qtxt, " && ".join(("" if tr else "!") + show(c)[:40] for c, tr in allassumed),
+                              shift_type or bool(prev and prev[4]))
+            elif shift_type and prev is not None and not prev[4]:
+                found[key] = prev[:4] + (True,)
 
 
 
